@@ -54,3 +54,19 @@ Definition cfg_set (c : route_cfg) (early_direct : bool) (cmp : cmp_mode) (unbin
      c_default_all := c_default_all c; c_cmp := cmp; c_topic_wordwise := c_topic_wordwise c;
      c_bind_refuses_default := c_bind_refuses_default c; c_unbind_refuses_default := unbind_refuses;
      c_default_binding_on_declare := c_default_binding_on_declare c |}.
+
+(* exchange.declare names its type by alias: the two alias maps of exchange.go must be inverse
+   of each other and give the four standard names to the ids the routing switch uses *)
+Definition str_direct : bytes := [100; 105; 114; 101; 99; 116].
+Definition str_fanout : bytes := [102; 97; 110; 111; 117; 116].
+Definition str_topic : bytes := [116; 111; 112; 105; 99].
+Definition str_headers : bytes := [104; 101; 97; 100; 101; 114; 115].
+
+Definition alias_maps_ok (c : route_cfg) (ia : list (N * bytes)) (ai : list (bytes * N)) : bool :=
+  forallb (fun p => existsb (fun q => bytes_eqb (snd p) (fst q) && N.eqb (fst p) (snd q)) ai) ia &&
+  forallb (fun q => existsb (fun p => bytes_eqb (snd p) (fst q) && N.eqb (fst p) (snd q)) ia) ai &&
+  Nat.eqb (length ia) 4 && Nat.eqb (length ai) 4 &&
+  existsb (fun p => N.eqb (fst p) (c_direct c) && bytes_eqb (snd p) str_direct) ia &&
+  existsb (fun p => N.eqb (fst p) (c_fanout c) && bytes_eqb (snd p) str_fanout) ia &&
+  existsb (fun p => N.eqb (fst p) (c_topic c) && bytes_eqb (snd p) str_topic) ia &&
+  existsb (fun p => N.eqb (fst p) (c_headers c) && bytes_eqb (snd p) str_headers) ia.
